@@ -204,6 +204,35 @@ let show_build c ops =
   | BErrAt i -> "ERR@" ^ nstr i
   | BErrBuild -> "ERR@build"
 
+let show_buildparse c ops =
+  match brun c ops with
+  | BOk out ->
+    let r = p2 out in
+    let tl = (match r with Ok h -> show_tlvs (h_tlv_bytes h) | Err _ -> "REJ") in
+    Printf.sprintf "OK %s | %s | %s" (hexs out) (show_v2 r) tl
+  | BErrAt i -> "ERR@" ^ nstr i
+  | BErrBuild -> "ERR@build"
+
+let same r want = match r with BOk v -> if v = want then "1" else "0" | _ -> "E"
+
+let show_rebuild x =
+  match p2 x with
+  | Err _ -> "REJ"
+  | Ok h ->
+    let vc = version_or_command h.hcommand and afp = protocol_or_family h.hprotocol (h_address_family h) in
+    let want = h.hbytes in
+    let ab = h_address_bytes h and tb = h_tlv_bytes h in
+    let raw = brun (CNew (vc, afp)) [WritePayload (PBytes ab); WritePayload (PBytes tb)] in
+    let sec = brun (CNew (vc, afp)) [WritePayload (PBytes ab); WritePayload (PSection tb)] in
+    let items = (match collect tb with Some l -> l | None -> failwith "fuel") in
+    let its = if List.for_all item_ok_b items
+      then same (brun (CNew (vc, afp)) [WritePayload (PBytes ab); WritePayloads (List.map item_payload_b items)]) want
+      else "-" in
+    let v = if h_address_family h <> FUnspec
+      then same (brun (CWith (vc, h.hprotocol, h.haddresses)) [WritePayload (PSection tb)]) want
+      else "-" in
+    Printf.sprintf "R=%s S=%s I=%s V=%s" (same raw want) (same sec want) its v
+
 let rec drop n l = if n = 0 then l else match l with [] -> [] | _ :: r -> drop (n - 1) r
 
 let show_write pre p =
@@ -227,6 +256,8 @@ let model_line (f : string list) : string =
      | Err _ -> "REJ")
   | ["build"; c; ops] -> show_build (ctor_of c) (ops_of ops)
   | ["write"; pre; p] -> show_write (mbytes pre) (payload_of p)
+  | ["buildparse"; c; ops] -> show_buildparse (ctor_of c) (ops_of ops)
+  | ["rebuild"; x] -> show_rebuild (mbytes x)
   | m :: _ -> failwith ("model: unknown mode " ^ m)
   | [] -> ""
 
@@ -251,6 +282,15 @@ let spec_line (f : string list) : string =
     let blen = int_of_n (lenN (body c ops)) in
     Printf.sprintf "EXP %s big=%s body=%d force=%s" (hexs (expected_output c ops)) (b01 big) blen
       (match in_force ops with Some l -> nstr l | None -> "-")
+  | ["buildparse"; c; ops] ->
+    (* the wire encoding of (command, transport, addresses, TLV list), from Spec/Encoder.v *)
+    (match split_on ',' c with
+     | "C" :: cm :: pr :: r ->
+       let cmd = (if cm = "0" then Local else Proxy) and a = fst (addr2 r) in
+       let tlvs = List.map (function PTlv (k, v) | PPair (k, v) -> (k, v) | _ -> failwith "not a TLV history") (payloads (ops_of ops)) in
+       Printf.sprintf "WIRE %s c%d p%d %s [%s]" (hexs (wire cmd (proto_of pr) a tlvs)) (cmd_code cmd) (proto_code (proto_of pr)) (v2_addr a)
+         (String.concat "," (List.map (fun (k, v) -> Printf.sprintf "T%s:%s" (nstr k) (hexs v)) tlvs))
+     | _ -> "-")
   | ["write"; pre; p] ->
     let p = payload_of p in
     Printf.sprintf "ENC %s big=%s" (hexs (enc_payload p)) (b01 (oversize p))
